@@ -115,11 +115,20 @@ def run(tier, rep):
     # (a1) inline mode
     pool = gen.sample(l2, 14000 if q else 200000, C.SEED) + gen.sample(l0, 8000 if q else 100000, C.SEED + 1) \
         + gen.sample(l1, 5000 if q else 60000, C.SEED + 2)
+    nest, sizes = gen.alphabet("Nest"), gen.alphabet("NestSizes")
+    pool += ["x " + "[" * n + "a" + "]" * n + "(u)" for n in sizes] + ["*" * n + "a" + "*" * n for n in sizes] \
+        + ["![" * n + "a" + "](/u)" * n for n in sizes]
     j1 = [(d, CFGS[k % len(CFGS)]) for k, d in enumerate(pool)]
     t1 = C.pmap(law_inline_mode, j1, chunk=300)
     # (a2) embedding
     one = sorted({d.strip(" \t") for d in l2 if "\n" not in d and d.strip(" \t")})
     one = gen.sample(one, 9000 if q else 150000, C.SEED + 3)
+    # deep inline nesting around maxNesting (20 / 100): the cut-off must not depend on the block context
+    nest, sizes = gen.alphabet("Nest"), gen.alphabet("NestSizes")
+    deep = sorted({"x " + u * n + m + c * n for (u, m, c) in nest for n in sizes
+                   if "\n" not in u + m + c and not u.startswith((">", "- ", "1.", "#", "  "))} |
+                  {"x " + "[" * n + "a" + "]" * n + "(u)" for n in sizes})
+    one += deep
     j2 = [(t, ctx, CFGS[(k + n) % len(CFGS)]) for k, t in enumerate(one) for n, ctx in enumerate(CTX)]
     t2 = C.pmap(law_embed, j2, chunk=300)
     verdicts, st = C.validate_traces("DocAlgebraTrace", t1 + t2, shard=3000, heap="10g")
